@@ -25,7 +25,9 @@ import (
 	"io"
 	"net"
 	"net/http"
+	"net/netip"
 	"net/url"
+	"os"
 	"strconv"
 	"strings"
 	"sync"
@@ -33,8 +35,11 @@ import (
 	"testing/iotest"
 	"time"
 
+	"github.com/AdguardTeam/AdGuardDNS/internal/agdtest"
+	"github.com/AdguardTeam/AdGuardDNS/internal/bindtodevice"
 	"github.com/AdguardTeam/AdGuardDNS/internal/dnsserver"
 	"github.com/AdguardTeam/AdGuardDNS/internal/dnsserver/dnsservertest"
+	"github.com/AdguardTeam/golibs/logutil/slogutil"
 	"github.com/ameshkov/dnscrypt/v2"
 	"github.com/ameshkov/dnsstamps"
 	"github.com/miekg/dns"
@@ -71,6 +76,12 @@ func vc01SockHandler() dnsserver.Handler {
 			panic(fmt.Sprintf("vc01: incomplete request context: %+v %+v", si, ri))
 		}
 
+		// Every server of the fixture is named after its protocol.
+		if !strings.HasSuffix(si.Name, "-"+si.Proto.String()) {
+			panic(fmt.Sprintf("vc01: server %q reports protocol %s", si.Name, si.Proto))
+		}
+
+		vc01Seen.Store(vc01SeenKey(req), req.Copy())
 		resp, mode := ref.Ref(req)
 		switch mode {
 		case ref.ModeError:
@@ -81,6 +92,19 @@ func vc01SockHandler() dnsserver.Handler {
 
 		return rw.WriteMsg(ctx, req, resp)
 	})
+}
+
+// vc01Seen keeps the last query the handler was given per question.
+var vc01Seen sync.Map
+
+func vc01SeenKey(m *dns.Msg) string {
+	if len(m.Question) == 0 {
+		return ""
+	}
+
+	q := m.Question[0]
+
+	return fmt.Sprintf("%s|%d|%d", q.Name, q.Qtype, q.Qclass)
 }
 
 // vc01Poison is a Disposer that, like the production one (dnsmsg.Cloner), takes
@@ -143,6 +167,7 @@ func (m *vc01Metrics) take() (errs []string) {
 type vc01Net struct {
 	metrics          *vc01Metrics
 	udpAddr, tcpAddr string
+	btdAddr, btdWhy  string // plain DNS behind a bind-to-device listener (UDP and TCP)
 	dotAddr          string
 	tlsClient        *tls.Config
 	dohAddr          net.Addr // TLS, h2
@@ -171,9 +196,9 @@ func vc01Start(t *testing.T) *vc01Net {
 	// are started here rather than through the require-based helpers, because
 	// plain DNS and DNSCrypt bind a UDP port and then the same TCP port, which
 	// another process on this shared machine may hold: retry.
-	base := func(network dnsserver.Network) dnsserver.ConfigBase {
+	base := func(proto dnsserver.Protocol, network dnsserver.Network) dnsserver.ConfigBase {
 		return dnsserver.ConfigBase{
-			Name: "test", Addr: "127.0.0.1:0", Handler: h, Network: network,
+			Name: "test-" + proto.String(), Addr: "127.0.0.1:0", Handler: h, Network: network,
 			Disposer: vc01Poison{}, Metrics: n.metrics, RequestContext: dnsserver.NewTimeoutContextConstructor(time.Minute),
 		}
 	}
@@ -195,31 +220,33 @@ func vc01Start(t *testing.T) *vc01Net {
 	}
 
 	srv := start("dns", func() dnsserver.Server {
-		return dnsserver.NewServerDNS(dnsserver.ConfigDNS{ConfigBase: base(dnsserver.NetworkAny), MaxUDPRespSize: dns.MaxMsgSize})
+		return dnsserver.NewServerDNS(dnsserver.ConfigDNS{ConfigBase: base(dnsserver.ProtoDNS, dnsserver.NetworkAny), MaxUDPRespSize: dns.MaxMsgSize})
 	})
 	n.tcpAddr, n.udpAddr = srv.LocalTCPAddr().String(), srv.LocalUDPAddr().String()
+
+	n.startBTD(t, base(dnsserver.ProtoDNS, dnsserver.NetworkAny))
 
 	tlsConf := dnsservertest.CreateServerTLSConfig("example.org")
 	n.tlsClient = tlsConf.Clone()
 	n.dotAddr = start("dot", func() dnsserver.Server {
-		return dnsserver.NewServerTLS(dnsserver.ConfigTLS{ConfigDNS: dnsserver.ConfigDNS{ConfigBase: base(dnsserver.NetworkAny)}, TLSConfig: tlsConf.Clone()})
+		return dnsserver.NewServerTLS(dnsserver.ConfigTLS{ConfigDNS: dnsserver.ConfigDNS{ConfigBase: base(dnsserver.ProtoDoT, dnsserver.NetworkAny)}, TLSConfig: tlsConf.Clone()})
 	}).LocalTCPAddr().String()
 
 	doh := start("doh", func() dnsserver.Server {
 		def, h3 := tlsConf.Clone(), tlsConf.Clone()
 		def.NextProtos, h3.NextProtos = dnsserver.NextProtoDoH, dnsserver.NextProtoDoH3
 
-		return dnsserver.NewServerHTTPS(dnsserver.ConfigHTTPS{ConfigBase: base(dnsserver.NetworkAny), TLSConfDefault: def, TLSConfH3: h3})
+		return dnsserver.NewServerHTTPS(dnsserver.ConfigHTTPS{ConfigBase: base(dnsserver.ProtoDoH, dnsserver.NetworkAny), TLSConfDefault: def, TLSConfH3: h3})
 	})
 	n.dohAddr, n.doh3Addr = doh.LocalTCPAddr(), doh.LocalUDPAddr()
 	n.dohPlainAddr = start("doh-plain", func() dnsserver.Server {
-		return dnsserver.NewServerHTTPS(dnsserver.ConfigHTTPS{ConfigBase: base(dnsserver.NetworkTCP)})
+		return dnsserver.NewServerHTTPS(dnsserver.ConfigHTTPS{ConfigBase: base(dnsserver.ProtoDoH, dnsserver.NetworkTCP)})
 	}).LocalTCPAddr()
 
 	n.doqTLS = tlsConf.Clone()
 	n.doqTLS.NextProtos = dnsserver.NextProtoDoQ
 	n.doqAddr = start("doq", func() dnsserver.Server {
-		return dnsserver.NewServerQUIC(dnsserver.ConfigQUIC{ConfigBase: base(dnsserver.NetworkAny), TLSConfig: n.doqTLS.Clone()})
+		return dnsserver.NewServerQUIC(dnsserver.ConfigQUIC{ConfigBase: base(dnsserver.ProtoDoQ, dnsserver.NetworkAny), TLSConfig: n.doqTLS.Clone()})
 	}).LocalUDPAddr().String()
 
 	n.crypt = &dnsservertest.TestDNSCryptServer{ProviderName: "example.org"}
@@ -240,7 +267,7 @@ func vc01Start(t *testing.T) *vc01Net {
 
 	n.crypt.ResolverPk = ed25519.PrivateKey(sk).Public().(ed25519.PublicKey)
 	n.crypt.Srv = start("dnscrypt", func() dnsserver.Server {
-		return dnsserver.NewServerDNSCrypt(dnsserver.ConfigDNSCrypt{ConfigBase: base(dnsserver.NetworkAny), DNSCryptProviderName: n.crypt.ProviderName, DNSCryptResolverCert: cert})
+		return dnsserver.NewServerDNSCrypt(dnsserver.ConfigDNSCrypt{ConfigBase: base(dnsserver.ProtoDNSCrypt, dnsserver.NetworkAny), DNSCryptProviderName: n.crypt.ProviderName, DNSCryptResolverCert: cert})
 	}).(*dnsserver.ServerDNSCrypt)
 	n.crypt.ServerAddr = n.crypt.Srv.LocalUDPAddr().String()
 
@@ -293,6 +320,105 @@ func vc01Start(t *testing.T) *vc01Net {
 	})
 
 	return n
+}
+
+// startBTD starts a second plain-DNS server that is fed, as with configured
+// interface_listeners in production, by a bindtodevice.Manager bound to "lo":
+// its UDP datagrams and TCP connections reach ServerDNS through
+// bindtodevice's channel-based PacketConn / Listener and its own buffer pool.
+// Without the privilege for SO_BINDTODEVICE the part is absent.
+func (n *vc01Net) startBTD(t *testing.T, conf dnsserver.ConfigBase) {
+	if os.Geteuid() != 0 {
+		n.btdWhy = "not root: SO_BINDTODEVICE needs CAP_NET_RAW"
+
+		return
+	}
+
+	for attempt := 0; attempt < 20; attempt++ {
+		c, err := net.ListenPacket("udp", "127.0.0.1:0")
+		if err != nil {
+			n.btdWhy = err.Error()
+
+			return
+		}
+
+		port := uint16(c.LocalAddr().(*net.UDPAddr).Port)
+		_ = c.Close()
+
+		m := bindtodevice.NewManager(&bindtodevice.ManagerConfig{
+			Logger:           slogutil.NewDiscardLogger(),
+			InterfaceStorage: bindtodevice.DefaultInterfaceStorage{},
+			ErrColl: &agdtest.ErrorCollector{OnCollect: func(_ context.Context, err error) {
+				n.metrics.note("bindtodevice reported: %v", err)
+			}},
+			ChannelBufferSize: 64,
+		})
+
+		const id bindtodevice.ID = "verifc01"
+		if err = m.Add(id, "lo", port, nil); err != nil {
+			n.btdWhy = "manager.Add: " + err.Error()
+
+			return
+		}
+
+		lc, err := m.ListenConfig(id, netip.MustParsePrefix("127.0.0.0/8"))
+		if err != nil {
+			n.btdWhy = "manager.ListenConfig: " + err.Error()
+
+			return
+		}
+
+		ctx, cancel := context.WithTimeout(context.Background(), 5*time.Second)
+		err = m.Start(ctx)
+		cancel()
+		if err != nil {
+			n.btdWhy = "manager.Start: " + err.Error()
+			if strings.Contains(err.Error(), "operation not permitted") {
+				return
+			}
+
+			continue
+		}
+
+		conf.Addr = netip.AddrPortFrom(netip.MustParseAddr("127.0.0.1"), port).String()
+		conf.ListenConfig = lc
+		srv := dnsserver.NewServerDNS(dnsserver.ConfigDNS{ConfigBase: conf, MaxUDPRespSize: dns.MaxMsgSize})
+		if err = srv.Start(context.Background()); err != nil {
+			n.btdWhy = "server start: " + err.Error()
+			_ = m.Shutdown(context.Background())
+
+			continue
+		}
+
+		t.Cleanup(func() {
+			sdCtx, sdCancel := context.WithTimeout(context.Background(), 5*time.Second)
+			defer sdCancel()
+
+			_ = srv.Shutdown(sdCtx)
+			_ = m.Shutdown(sdCtx)
+		})
+
+		// Wait until a query is answered through the listener.
+		sw, _ := vc01Sentinel(nil)
+		for i := 0; i < 50; i++ {
+			uc, derr := net.Dial("udp", conf.Addr)
+			if derr == nil {
+				_, _ = uc.Write(sw)
+				_ = uc.SetReadDeadline(time.Now().Add(200 * time.Millisecond))
+				_, rerr := uc.Read(make([]byte, 4096))
+				_ = uc.Close()
+				if rerr == nil {
+					n.btdAddr, n.btdWhy = conf.Addr, ""
+
+					return
+				}
+			}
+		}
+
+		n.btdWhy = "the bind-to-device listener does not answer on " + conf.Addr
+
+		return
+	}
 }
 
 // vc01Sentinel is a query every server answers; its ID differs from the
@@ -641,35 +767,6 @@ func vc01PlainName(n string) bool {
 	return n != ""
 }
 
-func vc01JSONTarget(q dns.Question, cd, do, mnemonic, wireCT bool, decoy []byte) string {
-	v := url.Values{}
-	if decoy != nil {
-		v.Set("dns", base64.RawURLEncoding.EncodeToString(decoy))
-	}
-
-	v.Set("name", q.Name)
-	ts := strconv.Itoa(int(q.Qtype))
-	if s, ok := dns.TypeToString[q.Qtype]; ok && mnemonic && s == strings.ToUpper(s) {
-		ts = strings.ToLower(s)
-	}
-
-	v.Set("type", ts)
-	v.Set("qc", strconv.Itoa(int(q.Qclass)))
-	if cd {
-		v.Set("cd", "1")
-	}
-
-	if do {
-		v.Set("do", "true")
-	}
-
-	if wireCT {
-		v.Set("ct", dnsserver.MimeTypeDoH)
-	}
-
-	return dnsserver.PathJSON + "?" + v.Encode()
-}
-
 // vc01Inconclusive is set once a case ended in an environmental failure.
 var vc01Inconclusive bool
 
@@ -783,6 +880,19 @@ func vc01SocketCase(t *rapid.T, st *vstat.Stats, n *vc01Net, in ref.Input) {
 	judge(ref.TCP, c, r, err, ref.CheckOpts{}, true)
 	r, err = vc01Attempt(func() (ref.Result, error) { return n.dotRaw(vc01Frame(wire), split) })
 	judge(ref.DoT, c, r, err, ref.CheckOpts{}, true)
+
+	// The second production path into ServerDNS: interface listeners.
+	if n.btdAddr != "" {
+		if len(wire) <= dns.MinMsgSize {
+			r, err = vc01Attempt(func() (ref.Result, error) {
+				return vc01Datagram(n.btdAddr, wire, expectsReply(ref.UDP), vc01Identity, vc01Identity)
+			})
+			judge(ref.UDP.Named("udp-btd"), c, r, err, ref.CheckOpts{}, true)
+		}
+
+		r, err = vc01Attempt(func() (ref.Result, error) { return n.tcpRaw(n.btdAddr, vc01Frame(wire), split, vc01Identity) })
+		judge(ref.TCP.Named("tcp-btd"), c, r, err, ref.CheckOpts{}, true)
+	}
 
 	// A decoy is another, acceptable query offered through the parameters of
 	// the encodings that are NOT in use; it must be ignored.
@@ -1080,71 +1190,136 @@ func vc01SocketCase(t *rapid.T, st *vstat.Stats, n *vc01Net, in ref.Input) {
 		classes = append(classes, "cross-transport-compared")
 	}
 
-	// JSON API for what it can express.
+	// JSON API: the question of an accepted query with a plain name, every
+	// documented parameter drawn independently of the wire query.
 	if c.Verdict == ref.VAccept && vc01PlainName(c.Req.Question[0].Name) {
-		q := c.Req.Question[0]
-		cd, do := c.Req.CheckingDisabled, c.ReqOPT != nil && c.ReqOPT.Do()
-		jreq := ref.JSONRequest(q.Name, q.Qtype, q.Qclass, cd, do)
-		jb, _ := jreq.Pack()
-		jc := ref.Classify(jb)
-		mn := rapid.Bool().Draw(t, "jsonMnemonic")
+		pick := ref.RapidChooser(t)
+		j := ref.DrawJSONQuery(pick, c.Req.Question[0])
 		method := rapid.SampledFrom([]string{http.MethodGet, http.MethodGet, http.MethodPost}).Draw(t, "jsonMethod")
 		cl, scheme := n.h2, "https"
 		if rapid.IntRange(0, 3).Draw(t, "jsonPlain") == 0 {
 			cl, scheme = n.h1, "http"
 		}
 
-		classes = append(classes, "json")
-		var jsonDecoy, jsonBody []byte
+		classes = append(append(classes, "json"), j.Classes...)
+		var jsonBody []byte
 		if decoy {
-			jsonDecoy = decoyWire
+			j.Values.Set("dns", b64(decoyWire))
 			if method == http.MethodPost {
 				jsonBody = decoyWire
 			}
 		}
 
-		var ct string
-		r, err = vc01Attempt(func() (r ref.Result, err error) {
-			r, ct, err = n.httpBody(cl, scheme, method, vc01JSONTarget(q, cd, do, mn, false, jsonDecoy), jsonBody, chunked)
+		otherCT := rapid.SampledFrom([]string{"", "", dnsserver.MimeTypeJSON, "text/plain"}).Draw(t, "jsonCT")
+		target := func(wireCT bool) string {
+			v := url.Values{}
+			for k, vs := range j.Values {
+				v[k] = vs
+			}
 
-			return r, err
-		})
-		if err != nil {
-			fail("doh-json", err)
+			if wireCT {
+				v.Set("ct", dnsserver.MimeTypeDoH)
+			} else if otherCT != "" {
+				v.Set("ct", otherCT)
+			}
+
+			return dnsserver.PathJSON + "?" + v.Encode()
 		}
 
-		switch {
-		case jc.Mode == ref.ModeSilent:
-			if len(r.Msgs) != 0 {
-				fail("doh-json", fmt.Errorf("silent pipeline: %s", r.Treatment))
-			}
-		case len(r.Msgs) != 1:
-			fail("doh-json", fmt.Errorf("HTTP outcome %s", r.Treatment))
-		default:
-			if ct != dnsserver.MimeTypeJSON {
-				fail("doh-json", fmt.Errorf("content type %q", ct))
+		call := func(wireCT bool) (r ref.Result, ct string) {
+			r, err = vc01Attempt(func() (r ref.Result, err error) {
+				r, ct, err = n.httpBody(cl, scheme, method, target(wireCT), jsonBody, chunked)
+
+				return r, err
+			})
+			if err != nil {
+				fail("doh-json", err)
 			}
 
-			dropped, jerr := ref.CheckJSON(r.Msgs[0], jreq, jc.Want, jc.Loose)
+			return r, ct
+		}
+
+		if j.Invalid {
+			for _, wireCT := range []bool{false, true} {
+				if r, _ := call(wireCT); !strings.HasPrefix(r.Treatment, "http-4") {
+					fail("doh-json", fmt.Errorf("invalid parameter in %q: %s, want 4xx", target(wireCT), r.Treatment))
+				}
+			}
+		} else {
+			jb, _ := j.Req.Pack()
+			jc := ref.Classify(jb)
+			key := vc01SeenKey(j.Req)
+			received := func(tr string) {
+				v, _ := vc01Seen.Load(key)
+				got, _ := v.(*dns.Msg)
+				if rerr := ref.CheckJSONReceived(j, got); rerr != nil {
+					fail(tr, fmt.Errorf("request %q: %w", j.Values.Encode(), rerr))
+				}
+			}
+
+			vc01Seen.Delete(key)
+			r, ct := call(false)
+			received("doh-json")
+			switch {
+			case jc.Mode == ref.ModeSilent:
+				if len(r.Msgs) != 0 {
+					fail("doh-json", fmt.Errorf("silent pipeline: %s", r.Treatment))
+				}
+			case len(r.Msgs) != 1:
+				fail("doh-json", fmt.Errorf("request %q: HTTP outcome %s", j.Values.Encode(), r.Treatment))
+			default:
+				if ct != dnsserver.MimeTypeJSON {
+					fail("doh-json", fmt.Errorf("content type %q", ct))
+				}
+
+				dropped, jerr := ref.CheckJSON(r.Msgs[0], j.Req, jc.Want, jc.Loose)
+				if jerr != nil {
+					fail("doh-json", fmt.Errorf("request %q: %w", j.Values.Encode(), jerr))
+				}
+
+				if dropped {
+					classes = append(classes, "json-authority-not-representable")
+				}
+
+				if jc.NonTrivial() {
+					st.NonTrivial("doh-json|" + string(jb))
+				}
+			}
+
+			// The same with ct=application/dns-message, judged against the
+			// equivalent request's own case and compared with the answer to the
+			// equivalent wire-format query sent as a DoH POST.
+			vc01Seen.Delete(key)
+			r, _ = call(true)
+			received("doh-json-ct-wire")
+			jfull, jcl, jerr := ref.Judge(ref.DoH.Named("doh-json-ct-wire"), jc, r, ref.CheckOpts{NoID: true})
+			classes = append(classes, jcl...)
 			if jerr != nil {
-				fail("doh-json", jerr)
+				fail("doh-json-ct-wire", fmt.Errorf("request %q: %w", j.Values.Encode(), jerr))
 			}
 
-			if dropped {
-				classes = append(classes, "json-authority-not-representable")
+			r, err = vc01Attempt(func() (ref.Result, error) {
+				r, _, err := n.http(cl, scheme, http.MethodPost, dnsserver.PathDoH, jb)
+
+				return r, err
+			})
+			if err != nil {
+				fail("doh-post(json-equivalent)", err)
 			}
 
-			if jc.NonTrivial() {
-				st.NonTrivial("doh-json|" + string(jb))
+			pfull, _, perr := ref.Judge(ref.DoH.Named("doh-post"), jc, r, ref.CheckOpts{})
+			if perr != nil {
+				fail("doh-post(json-equivalent)", perr)
+			}
+
+			if jfull != pfull {
+				fail("doh-json-ct-wire", fmt.Errorf("request %q: JSON API and the equivalent wire-format query disagree:\n json: %s\n wire: %s", j.Values.Encode(), jfull, pfull))
+			}
+
+			if jfull != "" {
+				classes = append(classes, "json-vs-wire-compared")
 			}
 		}
-
-		r, err = vc01Attempt(func() (r ref.Result, err error) {
-			r, _, err = n.httpBody(cl, scheme, method, vc01JSONTarget(q, cd, do, mn, true, jsonDecoy), jsonBody, chunked)
-
-			return r, err
-		})
-		judge(ref.DoH.Named("doh-json-ct-wire"), jc, r, err, ref.CheckOpts{NoID: true}, false)
 	}
 
 	// (iv) the listeners survived: covered by the next case and by the sentinel
@@ -1170,17 +1345,24 @@ func vc01SocketCase(t *rapid.T, st *vstat.Stats, n *vc01Net, in ref.Input) {
 }
 
 func TestVerifC01Sockets(t *testing.T) {
-	st := vstat.New("C01", "sockets",
-		"rapid inputs (structured valid queries, structured unacceptable messages, byte-level corruptions; see inpkg.accept) sent by real clients over loopback to servers started through dnsservertest: UDP, TCP, DoT, DoH h2 GET+POST, plain-HTTP/1.1 DoH, h3 (every case in thorough, 1/8 in quick), DoQ (correct and wrong length prefix), DNSCrypt UDP+TCP, JSON API and JSON with ct=dns-message; servers configured as the real stack does (poisoning disposer, reading metrics listener, deadline contexts, handler requiring ServerInfo/RequestInfo); TCP/DoT frames written in two segments at drawn offsets; POST bodies without content-length (chunked); decoy parameters of the other DoH encodings; framing faults (short / empty frame, two queries in one DoQ stream, two dns parameters, PUT); for half of the valid cases a near miss (one component changed) is sent pipelined with the input on one TCP and one DoT connection, one UDP socket, two DoQ streams in flight and two concurrent h2 requests, replies matched as a multiset; oracle = documented per-transport treatment + reference handler + pairwise agreement of complete answers + survival probe after unacceptable input; non-trivial = accepted query with non-empty / non-NOERROR / absent reference answer or unacceptable input >= 12 octets; distinct by (transport, wire bytes)",
-		"verdict-accept", "undecodable-past-header", "verdict-response-bit", "verdict-notimp", "verdict-formerr", "kind-handler-error",
+	rule := "rapid inputs (structured valid queries, structured unacceptable messages, byte-level corruptions; see inpkg.accept) sent by real clients over loopback to servers started through dnsservertest: UDP, TCP, DoT, DoH h2 GET+POST, plain-HTTP/1.1 DoH, h3 (every case in thorough, 1/8 in quick), DoQ (correct and wrong length prefix), DNSCrypt UDP+TCP, a second plain-DNS server fed by a bindtodevice.Manager bound to lo (UDP+TCP, the interface-listener path), JSON API with every documented parameter drawn independently in all accepted spellings (name with/without dot, type/qc absent, empty, number, mnemonic; cd/do/sde absent, empty, 0/false/False, 1/true/True; one invalid value sometimes; ct) incl. ct=dns-message, the query the handler was given compared with what the client expressed, and the wire answer compared with that to the equivalent wire-format POST; servers configured as the real stack does (poisoning disposer, reading metrics listener, deadline contexts, handler requiring ServerInfo/RequestInfo); TCP/DoT frames written in two segments at drawn offsets; POST bodies without content-length (chunked); decoy parameters of the other DoH encodings; framing faults (short / empty frame, two queries in one DoQ stream, two dns parameters, PUT); for half of the valid cases a near miss (one component changed) is sent pipelined with the input on one TCP and one DoT connection, one UDP socket, two DoQ streams in flight and two concurrent h2 requests, replies matched as a multiset; oracle = documented per-transport treatment + reference handler + pairwise agreement of complete answers + survival probe after unacceptable input; non-trivial = accepted query with non-empty / non-NOERROR / absent reference answer or unacceptable input >= 12 octets; distinct by (transport, wire bytes)"
+	required := []string{"verdict-accept", "undecodable-past-header", "verdict-response-bit", "verdict-notimp", "verdict-formerr", "kind-handler-error",
 		"kind-silent", "kind-large", "truncated-on-udp", "cross-transport-compared", "json", "doq:no-message", "doq:must-reply",
 		"dnscrypt-udp:must-reply", "dnscrypt-tcp:must-reply", "doh-h2-get:must-reply", "doh-h2-post:must-reply", "dot:must-reply",
 		"udp:no-message", "tcp:no-message", "survival-probe", "mixed-case-name", "max-length-name",
 		"pipelined-near-miss", "tcp:pair", "dot:pair", "udp:pair", "doq:pair", "doh-h2:pair", "tcp-split-write", "doh-body-without-length",
-		"doh-decoy-params", "req-padding+keepalive", "root-name", "doq:fallback-servfail")
-	st.Finish(t)
-
+		"doh-decoy-params", "req-padding+keepalive", "root-name", "doq:fallback-servfail",
+		"json-do-only", "json-sde-only", "json-cd-only", "json-do+sde", "json-invalid-param", "json-type-default", "json-type-mnemonic",
+		"json-vs-wire-compared", "udp-btd:must-reply", "tcp-btd:must-reply"}
+	st := vstat.New("C01", "sockets", rule, required...)
 	n := vc01Start(t)
+	if n.btdAddr == "" {
+		fmt.Println("C01 bind-to-device part absent:", n.btdWhy)
+		st.Extra("bindtodevice", n.btdWhy)
+		st = vstat.New("C01", "sockets", rule, required[:len(required)-2]...)
+	}
+
+	st.Finish(t)
 	rapid.Check(t, func(t *rapid.T) {
 		vc01SocketCase(t, st, n, ref.DrawInput(t))
 	})
